@@ -166,9 +166,9 @@ theorem SRel.unpackAux {a b : Nat} (hab : β.t a b) (n i : Nat) :
   | zero => exact .nil
   | succ n ih => exact .cons (h.rawGet hab rfl) (ih _)
 
-theorem SRel.lookupVar {D : List DName} {env env' : Env N} (he : EnvRel β D env.locals env'.locals)
+theorem SRel.lookupVar {D : List DName} {env env' : Env N} (he : EnvRel cx β D env.locals env'.locals)
     {n : String} (hn : DName.ref n ∉ D) : VRel β (Sem.lookupVar env n σ) (Sem.lookupVar env' n σ') := by
-  have := he n hn
+  have := he.rel n hn
   simp only [Sem.lookupVar]
   cases h1 : lookupAssoc n env.locals <;> cases h2 : lookupAssoc n env'.locals <;> rw [h1, h2] at this <;>
     simp only [OptRel] at this
